@@ -4,7 +4,8 @@ import gen_C16
 
 ID = 'C16'
 GEN = [('Gen/C16_Slug.v', gen_C16.generate_slug), ('Gen/C16_Code.v', gen_C16.generate_code),
-       ('Gen/C16_Fold.v', gen_C16.generate_fold), ('Gen/C16_Aliases.v', gen_C16.generate_aliases)]
+       ('Gen/C16_Fold.v', gen_C16.generate_fold), ('Gen/C16_Aliases.v', gen_C16.generate_aliases),
+       ('Gen/C16_Charmaps.v', gen_C16.generate_charmaps)]
 EQUIV_FILES = ['Proofs/C16.v']
 EXTRACT = 'Extract/C16_x.v'
 
@@ -98,7 +99,7 @@ def impl(c):
 
 # ------------------------------------------------------------------ what the Coq model covers
 
-MODELLED = ('utf-8', 'iso8859-1', 'ascii', 'utf-16', 'utf-16-le', 'utf-16-be', 'utf-32', 'utf-32-le', 'utf-32-be')
+MODELLED = ('utf-8', 'iso8859-1', 'ascii', 'utf-16', 'utf-16-le', 'utf-16-be', 'utf-32', 'utf-32-le', 'utf-32-be', 'cp1252', 'koi8-r')
 POLICIES = ('strict', 'ignore', 'replace')
 REGISTERED_UNMODELLED = ('xmlcharrefreplace', 'backslashreplace', 'namereplace', 'surrogateescape', 'surrogatepass')
 
@@ -561,16 +562,18 @@ RULE = ('boundary cases (13 texts x 3 spellings x 8 codec families x 3 policies;
         '(lone surrogates 3 %), codec names = aliases of 8 families in mixed letter case plus unknown names, errors = strict/ignore/replace (+ default, unknown, '
         'unmodelled registered handlers), sys.stdin.encoding from 11 settings; the whole NFKD table and every alias of encodings.aliases once; '
         'distinct = distinct case JSON; trivial = none')
-TRUSTED = ['CPython codecs other than utf-8/latin-1/ascii, and sys.stdin.encoding, are runtime: they enter the theorems as a `world` record with explicit contracts '
+TRUSTED = ['shift_jis (and any codec other than the eleven modelled ones) and sys.stdin.encoding are runtime: they enter the theorems as a `world` record with explicit contracts '
            '(error handler consulted only on error; strict decode of a strict encoding gives the text back; lookup independent of letter case) which the oracle tests on every generated triple',
-           'UTF-8 / Latin-1 / ASCII encoders and decoders (strict, ignore, replace), codec-name normalisation and the NFKD->ASCII residue are Coq models tied to CPython by correspondence '
-           '(ops enc/dec/lookup/fold), with the contracts proved for them',
+           'UTF-8, Latin-1, ASCII, UTF-16 / -LE / -BE, UTF-32 / -LE / -BE, cp1252, koi8-r encoders and decoders (strict, ignore, replace; error spans as CPython reports them), codec-name '
+           'normalisation + alias table, and the NFKD->ASCII residue are Coq models tied to CPython by correspondence (ops enc/dec/lookup/fold, malformed inputs included), with the contracts PROVED for them',
            'CPython re / str.strip / str.lower as modelled in Base/Regex.v, Base/PyInt.v, Base/Str.v; regex ASTs and Unicode tables regenerated on every run']
 ASSUMPTIONS = ['error handlers other than strict/ignore/replace and codec names with non-ASCII characters are outside the correspondence (oracle only)',
                'NFKD of a string = concatenation of per-character residues after dropping non-ASCII (tested on every fold/to_slug case; holds because ASCII characters are starters)']
 LEVEL_TEXT = ('Theorems for all inputs over an arbitrary codec registry with stated contracts (str identity, decode with UTF-8 fallback, encode/decode round trip for every '
-              'representable text in any letter case and error policy, bytes untouched when the names agree, transcoding otherwise, to_utf8, TypeError for every other type), '
-              'closed instances for UTF-8 / Latin-1 / ASCII with the codecs modelled and their round trip proved for every surrogate-free text; to_slug alphabet, single hyphens and '
-              'idempotence for all inputs from regex-engine lemmas applied to the regenerated regex ASTs; the four functions are translated statement by statement on every run and proved equal to the model.')
+              'representable text in any letter case and error policy, bytes untouched when the names agree, transcoding otherwise, to_utf8, TypeError for every other type); '
+              'closed instances (no premises) for eleven concrete codecs - UTF-8, Latin-1, ASCII, UTF-16/-LE/-BE, UTF-32/-LE/-BE, cp1252, koi8-r - each with decode(encode t) = t proved for every '
+              'representable text of any length, canonicity of the BOM-less decoders, closed transcoding between any two of them, soundness of the name-comparing "same codec" shortcut and the alias case; '
+              'to_slug alphabet, single hyphens and idempotence for all inputs with the generated NFKD table (no hypothesis left) from regex-engine lemmas applied to the regenerated regex ASTs; '
+              'the four functions are translated statement by statement on every run and proved equal to the model.')
 LEVEL_NOTE = ('Trusted: Coq kernel; translator tools/gen/gen_C16.py (CPython ast, re._parser, unicodedata, encodings.aliases); CPython codec behaviour for the other codecs as contracts '
               '(tested); correspondence harness. No axioms.')
